@@ -710,3 +710,362 @@ Proof.
   destruct I as [<-|[<-|[<-|[]]]]; vm_compute in G; inversion G; subst tm; vm_compute in S; inversion S; subst hs;
     simpl in H; repeat (destruct H as [<-|H]; [eexists; vm_compute; reflexivity|]); destruct H.
 Qed.
+
+(* ================================================================== *)
+(* yaml-set and yaml-merge: the glue composed with the library MODELS of the change / merge step
+   (round `compose`; adapters Spec/CliLibSet.v, proofs Proofs/CliSetCompose.v, CliMergeCompose.v).
+
+   Until here the glue's [change] (yaml-set) and [merge2] (yaml-merge) were abstract inputs.  They are
+   now computed by the library models on Doc.node:
+     processor.set_value(P, V, value_format, mustexist)  = Compose.ce_set: Eval.v gathers (required /
+                                optional query), Mutate.set_value changes        -> [lib_set_value]
+       ... its creating route (the optional gather reaches a node-creating branch, straight key / index
+           path)               = Create.create_set
+     processor.delete_gathered_nodes(gathered)            = Mutate.delete_nodes on the coordinates
+                                Eval.get_required gathered                       -> [lib_set_delete]
+     Merger(l).merge_with(r)   = Merge.merge_root, or for --mergeat P on an existing path
+                                Eval.get_optional gathering the targets + MergeAt.merge_at -> [lib_merge_at]
+   [doc_of] : the document behind an identifier, [id_of] : the identifier of a document (the harness numbers
+   documents by plain data).  What stays an oracle: --check facts of a gathered node, the dump / reload
+   views, the identity of key text objects ([ko_of]), --tag / --aliasof / --mergekey / --eyamlcrypt
+   (no library model: [lib_change] answers ChCrash "OutOfModel" there), and the values the tool reads. *)
+From Coq Require Import NArith.
+From YP Require Import PyVal Doc PathParser Searches CliLibSet CliSetCompose CliMergeCompose.
+From YP Require Eval Mutate Create Compose Merge MergeAt MergeAtProofs.
+From YP Require Import SpecC01 EvalLocAll C03spec C03hist C04spec C03e2e C04delete EvalDelete EvalSet.
+Open Scope list_scope.
+
+(* yaml-set --change P --value V [--mustexist]: glue o (Eval + Mutate).  When the library call completes with
+   state st', a run that exits 0 delivers exactly ONE document - what the text written for the identifier of
+   st' loads back to - and any other ending delivers nothing.  For every [gather] fact. *)
+Theorem C16_set_end_to_end :
+  forall lit re_search nstr vstr kw_handler creator fl doc_of id_of ko_of
+         built saveto flow dump_fail jsonview yamlview change_verb
+         a p value fmt vo d0 tty valfile_err load gather st',
+    set_change_kind a = ChSetValue -> sa_saveto a = false ->
+    get_yaml_data load = L1Ok (Some d0) ->
+    Compose.ce_set lit re_search nstr vstr kw_handler creator fl (sa_mustexist a || sa_saveto a) p (doc_of d0) value fmt vo
+      = Compose.CeDone st' ->
+    let run := cli_set_main built saveto
+                 (lib_change lit re_search nstr vstr kw_handler creator fl doc_of id_of ko_of a p value fmt vo d0)
+                 flow dump_fail jsonview yamlview change_verb a tty valfile_err load gather in
+    (r_status run = Exit 0 ->
+     exists j, delivered run = [(j, [set_written a flow yamlview jsonview (id_of (fst st'))])]) /\
+    (r_status run <> Exit 0 -> delivered run = []).
+Proof. exact set_value_e2e. Qed.
+Print Assumptions C16_set_end_to_end.
+
+(* ... and WHICH document that is (with C03_set_end_to_end): under its guards - C01's fragment and strict
+   reading, slices last, no virtual result, ce_doc_ok, C03's acts_ok - st' is the successive substitution
+   ce_set_spec at the locations of exactly the nodes sem_doc selects on the loaded document *)
+Theorem C16_set_end_to_end_spec :
+  forall lit re_search nstr vstr kw_handler creator fl doc_of id_of ko_of
+         built saveto flow dump_fail jsonview yamlview change_verb
+         a segs value fmt vo d0 tty valfile_err load gather st',
+    let p := Eval.PPath segs in
+    let d := doc_of d0 in
+    let pcs := gathered lit re_search nstr vstr kw_handler creator p d in
+    let s0 := sv_start vo (Mutate.init_state d) in
+    set_change_kind a = ChSetValue -> sa_saveto a = false -> sa_mustexist a = true ->
+    get_yaml_data load = L1Ok (Some d0) ->
+    c01_frag p = true -> is_null_node d = false -> specified (sem_doc lit re_search nstr true p d) = true ->
+    slices_last segs = true -> Compose.ce_name_kw p = false -> ce_plain (sem_doc lit re_search nstr false p d) = true ->
+    ce_doc_ok d = true ->
+    acts_ok lit fl value (fst s0) (ce_acts fmt pcs) (snd s0) = true ->
+    Compose.ce_set lit re_search nstr vstr kw_handler creator fl true p d value fmt vo = Compose.CeDone st' ->
+    let run := cli_set_main built saveto
+                 (lib_change lit re_search nstr vstr kw_handler creator fl doc_of id_of ko_of a p value fmt vo d0)
+                 flow dump_fail jsonview yamlview change_verb a tty valfile_err load gather in
+    Forall2 (ce_holds d) (map pc_pair pcs) (sem_doc lit re_search nstr false p d) /\
+    ce_set_spec lit fl value fmt (fst s0) (map pc_pair pcs) (snd s0) = Some st' /\
+    (r_status run = Exit 0 ->
+     exists j, delivered run = [(j, [set_written a flow yamlview jsonview (id_of (fst st'))])]) /\
+    (r_status run <> Exit 0 -> delivered run = []).
+Proof. exact set_value_e2e_spec. Qed.
+Print Assumptions C16_set_end_to_end_spec.
+
+(* the creating route: without --mustexist, the optional gather reaches a node-creating branch on a straight
+   key / index path: the change step is Create.create_set (C09's model; what it creates: C09_create_frame,
+   C09_create_resolves_partial, C09_create_pads_document_partial) *)
+Theorem C16_set_create_end_to_end :
+  forall lit re_search nstr vstr kw_handler creator fl doc_of id_of ko_of
+         built saveto flow dump_fail jsonview yamlview change_verb
+         a segs cs value fmt vo d0 tty valfile_err load gather o k st',
+    set_change_kind a = ChSetValue -> sa_saveto a = false -> sa_mustexist a = false ->
+    get_yaml_data load = L1Ok (Some d0) ->
+    Compose.ce_set lit re_search nstr vstr kw_handler creator fl false (Eval.PPath segs) (doc_of d0) value fmt vo
+      = Compose.CeRead (Eval.Mut o k) ->
+    straight_segs ko_of segs = Some cs ->
+    Create.create_set lit fl cs value fmt vo (doc_of d0) = Mutate.SDone st' ->
+    let run := cli_set_main built saveto
+                 (lib_change lit re_search nstr vstr kw_handler creator fl doc_of id_of ko_of a (Eval.PPath segs) value fmt vo d0)
+                 flow dump_fail jsonview yamlview change_verb a tty valfile_err load gather in
+    (r_status run = Exit 0 ->
+     exists j, delivered run = [(j, [set_written a flow yamlview jsonview (id_of (fst st'))])]) /\
+    (r_status run <> Exit 0 -> delivered run = []).
+Proof. exact set_create_e2e. Qed.
+Print Assumptions C16_set_create_end_to_end.
+
+(* yaml-set --delete --change P (with C04_delete_exact_end_to_end): the delivered document is delete_spec of
+   the loaded document at the coordinates the required query gathered - the locations of exactly the nodes
+   sem_doc selects.  del_all_located stays a hypothesis (C04 / C02). *)
+Theorem C16_set_delete_end_to_end :
+  forall lit re_search nstr vstr kw_handler creator fl doc_of id_of ko_of
+         built saveto flow dump_fail jsonview yamlview change_verb
+         a segs value fmt vo d0 tty valfile_err load gather,
+    let p := Eval.PPath segs in
+    let d := doc_of d0 in
+    let ps := map pc_pair (gathered lit re_search nstr vstr kw_handler creator p d) in
+    set_change_kind a = ChDelete -> sa_saveto a = false ->
+    get_yaml_data load = L1Ok (Some d0) ->
+    c01_frag p = true -> is_null_node d = false -> specified (sem_doc lit re_search nstr true p d) = true ->
+    slices_last segs = true -> ce_plain (sem_doc lit re_search nstr false p d) = true ->
+    sem_doc lit re_search nstr false p d <> [] ->
+    ce_doc_ok d = true -> del_all_located d ps = true ->
+    let run := cli_set_main built saveto
+                 (lib_change lit re_search nstr vstr kw_handler creator fl doc_of id_of ko_of a p value fmt vo d0)
+                 flow dump_fail jsonview yamlview change_verb a tty valfile_err load gather in
+    Forall2 (ce_holds d) ps (sem_doc lit re_search nstr false p d) /\
+    (r_status run = Exit 0 ->
+     exists j, delivered run = [(j, [set_written a flow yamlview jsonview (id_of (delete_spec d ps))])]) /\
+    (r_status run <> Exit 0 -> delivered run = []).
+Proof. exact set_delete_e2e_spec. Qed.
+Print Assumptions C16_set_delete_end_to_end.
+
+(* the change step raises a YAML Path error (nothing matched although it must exist - C03_set_end_to_end's
+   Unmatched clause -, a refused key collision, an impossible format): "Applying changes" ends with status 1
+   and no file effect *)
+Theorem C16_set_end_to_end_error :
+  forall lit re_search nstr vstr kw_handler creator fl doc_of id_of ko_of
+         flow dump_fail jsonview yamlview change_verb a p value fmt vo d0 n file out d1 k d2,
+    set_change_kind a = ChSetValue ->
+    lib_change lit re_search nstr vstr kw_handler creator fl doc_of id_of ko_of a p value fmt vo d0 d1
+      = change_of_exn (YPE k) d2 ->
+    let r := set_change_tail (lib_change lit re_search nstr vstr kw_handler creator fl doc_of id_of ko_of a p value fmt vo d0)
+               flow dump_fail jsonview yamlview change_verb a n file out d1 in
+    r_status r = Exit 1 /\ r_fx r = [] /\ delivered r = dumped (r_out r).
+Proof. exact set_value_e2e_error. Qed.
+Print Assumptions C16_set_end_to_end_error.
+
+(* ---- non-vacuity: the document {a: 1, b: [x, y]} behind identifier 5 ---- *)
+Definition x_inf (o : N) (c : bool) : info := mkinfo o None c None.
+Definition x_s (o : N) (s : string) : node := NLeaf (x_inf o false) (PStr s).
+Definition x_i (o : N) (z : Z) : node := NLeaf (x_inf o false) (PInt z).
+Definition x_doc : node :=
+  NMap (x_inf 0 true) [ (x_s 1 "a", x_i 2 1); (x_s 3 "b", NSeq (x_inf 4 true) [x_s 5 "x"; x_s 6 "y"]) ].
+Definition x_lit (s : string) : outcome litres := Ok LFail.
+Definition x_fl (s : string) : outcome Mutate.flres := Ok Mutate.FFail.
+Definition x_re (_ _ : string) : outcome reres := Ok (RMatch false).
+Definition x_kw (_ : bool) (_ : keyword) (_ : string) (_ : Eval.rval) (_ : Eval.ctx) : Eval.gen Eval.rval := (Eval.gnil).
+Definition x_cr (_ : list Eval.pseg) (_ : nat) (_ : Eval.rval) (_ : Eval.ctx) : Eval.gen Eval.rval := ([], Eval.Mut 0 PNone).
+Definition x_nstr (_ : node) : string := "".
+Definition x_vstr (_ : list Eval.rval) : string := "".
+Definition x_null : node := NLeaf (x_inf 0 false) PNone.
+Definition x_doc_of (i : nat) : node := if Nat.eqb i 5 then x_doc else x_null.
+Definition x_id_of (n : node) : nat := N.to_nat (Mutate.max_oid n).
+Definition x_sn (_ : Eval.rval) : setnode := mksn false (LOk false) true.
+Definition x_ko (_ : string) : option N := None.
+Definition x_pp (t : string) : Eval.ppath := match Eval.prepare 20 t with Ok p => p | _ => Eval.PFail (YPE Generic) end.
+Definition ex_args_del :=
+  mkset "doc.yaml" false (mknoise false false false) None false false false false None false true ""
+        false false false false false true false false false false false 62 false.
+(* the whole tool: glue around the library models, gather included *)
+Definition x_tool (a : set_args) (text : string) : option crun :=
+  match lib_set_gather x_lit x_re x_nstr x_vstr x_kw x_cr x_doc_of x_sn (x_pp text) 5 with
+  | Some g => Some (cli_set_main (LRaise UYpe) (fun d => LOk d)
+                      (lib_change x_lit x_re x_nstr x_vstr x_kw x_cr x_fl x_doc_of x_id_of x_ko a (x_pp text)
+                                  (PStr "new") Mutate.FBare None 5)
+                      (fun _ => false) (fun _ => None) (fun d => d) (fun d => d) (fun _ => 0)
+                      a true None (R1Doc (Some 5)) g)
+  | None => None
+  end.
+
+(* yaml-set --mustexist -g b[0] -a new --backup doc.yaml: every hypothesis of C16_set_end_to_end_spec; the state
+   left is {a: 1, b: [new, y]} (identifier 8 = its largest object identity); exit 0, backup, one document written *)
+Example C16_set_end_to_end_nonvacuous :
+  let a := ex_args_set false false true in
+  match x_pp "b[0]" with
+  | Eval.PPath segs =>
+      let p := Eval.PPath segs in
+      let pcs := gathered x_lit x_re x_nstr x_vstr x_kw x_cr p x_doc in
+      let s0 := sv_start None (Mutate.init_state x_doc) in
+      set_change_kind a = ChSetValue /\ sa_saveto a = false /\ sa_mustexist a = true /\
+      c01_frag p = true /\ specified (sem_doc x_lit x_re x_nstr true p x_doc) = true /\ slices_last segs = true /\
+      Compose.ce_name_kw p = false /\ ce_plain (sem_doc x_lit x_re x_nstr false p x_doc) = true /\
+      ce_doc_ok x_doc = true /\ acts_ok x_lit x_fl (PStr "new") (fst s0) (ce_acts Mutate.FBare pcs) (snd s0) = true /\
+      map pc_pair pcs = [(Some 4%N, PInt 0)] /\
+      match Compose.ce_set x_lit x_re x_nstr x_vstr x_kw x_cr x_fl true p x_doc (PStr "new") Mutate.FBare None with
+      | Compose.CeDone st' =>
+          erase (fst st') = DMap [ (PStr "a", DLeaf (PInt 1)); (PStr "b", DSeq [DLeaf (PStr "new"); DLeaf (PStr "y")]) ] /\
+          x_id_of (fst st') = 8
+      | _ => False
+      end /\
+      x_tool a "b[0]" = Some (mkrun (Exit 0) [] [EBackup; EWrite false [8]])
+  | _ => False
+  end.
+Proof. vm_compute. repeat split. Qed.
+
+(* the creating route (c.d is missing: {a: 1, b: [x, y], c: {d: new}}), the Unmatched error of --mustexist,
+   and --delete of b[0] ({a: 1, b: [y]}) *)
+Example C16_set_routes_nonvacuous :
+  x_tool (ex_args_set false false false) "c.d" = Some (mkrun (Exit 0) [] [EBackup; EWrite false [12]]) /\
+  x_tool (ex_args_set false false true) "c.d" = Some (mkrun (Exit 1) [] []) /\
+  set_change_kind ex_args_del = ChDelete /\
+  x_tool ex_args_del "b[0]" = Some (mkrun (Exit 0) [] [EBackup; EWrite false [6]]).
+Proof. vm_compute. repeat split. Qed.
+
+(* ------------------------------------------------------------------ *)
+(* yaml-merge: glue o library merge.  Generic in the node-level model [m] of one Merger(l).merge_with(r):
+   in the default mode, when every source loads, the left-to-right fold of [m] over the input DOCUMENTS
+   completes with D, and the identifiers are coherent along that fold, the run exits 0 and delivers exactly
+   one document whose identifier stands for D.  Inherited from C16_merge_output: its global hypothesis
+   merges_clean, here "the library merge completes for the documents behind any two identifiers". *)
+Theorem C16_merge_end_to_end_generic :
+  forall doc_of id_of m flow jview estr a tty srcs stdin_src nerr vl n',
+    (forall l r, exists x, m (doc_of l) (doc_of r) = Ok x) ->
+    ma_mode a = CondenseAll ->
+    merge_validate a (List.length srcs) (map s_name srcs) tty = (nerr, vl, n') -> nerr = 0 -> ma_config_err a = None ->
+    Forall (src_loads estr) srcs ->
+    (stdin_waits_m a tty srcs = true -> src_loads estr stdin_src) ->
+    ma_backup a && negb (ma_overwrite_exists a) = false ->
+    forall d rest D,
+      flat_map (src_docs estr) srcs ++ (if stdin_waits_m a tty srcs then src_docs estr stdin_src else []) = d :: rest ->
+      fold_nodes m (doc_of d) (map doc_of rest) = Ok D -> fold_coherent doc_of id_of m (doc_of d) (map doc_of rest) ->
+      let run := cli_merge_main (merge2_of doc_of id_of m) flow jview estr a tty srcs stdin_src in
+      exists i, doc_of i = D /\
+        r_status run = Exit 0 /\
+        delivered run = [(doc_is_json flow a i, [prepared flow jview a (prepared flow jview a i)])].
+Proof. exact merge_e2e. Qed.
+Print Assumptions C16_merge_end_to_end_generic.
+
+(* default insertion point: Merger.merge_with = Merge.merge_root (what the merged document is: C05's theorems
+   about merge_rec / merge_simple_lists, which merge_root dispatches to) *)
+Theorem C16_merge_end_to_end :
+  forall lit cfg doc_of id_of flow jview estr a tty srcs stdin_src nerr vl n',
+    (forall l r, exists x, Merge.merge_root lit cfg (doc_of l) (doc_of r) = Ok x) ->
+    ma_mode a = CondenseAll ->
+    merge_validate a (List.length srcs) (map s_name srcs) tty = (nerr, vl, n') -> nerr = 0 -> ma_config_err a = None ->
+    Forall (src_loads estr) srcs ->
+    (stdin_waits_m a tty srcs = true -> src_loads estr stdin_src) ->
+    ma_backup a && negb (ma_overwrite_exists a) = false ->
+    forall d rest D,
+      flat_map (src_docs estr) srcs ++ (if stdin_waits_m a tty srcs then src_docs estr stdin_src else []) = d :: rest ->
+      fold_nodes (Merge.merge_root lit cfg) (doc_of d) (map doc_of rest) = Ok D ->
+      fold_coherent doc_of id_of (Merge.merge_root lit cfg) (doc_of d) (map doc_of rest) ->
+      let run := cli_merge_main (merge2_of doc_of id_of (Merge.merge_root lit cfg)) flow jview estr a tty srcs stdin_src in
+      exists i, doc_of i = D /\
+        r_status run = Exit 0 /\
+        delivered run = [(doc_is_json flow a i, [prepared flow jview a (prepared flow jview a i)])].
+Proof. intros lit cfg doc_of id_of. exact (merge_e2e doc_of id_of (Merge.merge_root lit cfg)). Qed.
+Print Assumptions C16_merge_end_to_end.
+
+(* --mergeat P on an existing path: Merger.merge_with = the optional query of Eval.v gathering the targets +
+   MergeAt.merge_at merging into them *)
+Theorem C16_mergeat_end_to_end :
+  forall lit re_search nstr vstr kw_handler creator cfg p doc_of id_of flow jview estr a tty srcs stdin_src nerr vl n',
+    let m := lib_merge_at lit re_search nstr vstr kw_handler creator cfg p in
+    (forall l r, exists x, m (doc_of l) (doc_of r) = Ok x) ->
+    ma_mode a = CondenseAll ->
+    merge_validate a (List.length srcs) (map s_name srcs) tty = (nerr, vl, n') -> nerr = 0 -> ma_config_err a = None ->
+    Forall (src_loads estr) srcs ->
+    (stdin_waits_m a tty srcs = true -> src_loads estr stdin_src) ->
+    ma_backup a && negb (ma_overwrite_exists a) = false ->
+    forall d rest D,
+      flat_map (src_docs estr) srcs ++ (if stdin_waits_m a tty srcs then src_docs estr stdin_src else []) = d :: rest ->
+      fold_nodes m (doc_of d) (map doc_of rest) = Ok D -> fold_coherent doc_of id_of m (doc_of d) (map doc_of rest) ->
+      let run := cli_merge_main (merge2_of doc_of id_of m) flow jview estr a tty srcs stdin_src in
+      exists i, doc_of i = D /\
+        r_status run = Exit 0 /\
+        delivered run = [(doc_is_json flow a i, [prepared flow jview a (prepared flow jview a i)])].
+Proof.
+  intros lit re_search nstr vstr kw_handler creator cfg p doc_of id_of.
+  exact (merge_e2e doc_of id_of (lib_merge_at lit re_search nstr vstr kw_handler creator cfg p)).
+Qed.
+Print Assumptions C16_mergeat_end_to_end.
+
+(* one such step IS MergeAt.merge_at on the Doc locations of the evaluator's answer, so C11's theorems speak
+   about it: in particular (C11_frame) every location that leaves all targets holds what it held *)
+Theorem C16_mergeat_step_is_C11 :
+  forall lit re_search nstr vstr kw_handler creator cfg p l r out,
+    lib_merge_at lit re_search nstr vstr kw_handler creator cfg p l r = Ok out ->
+    exists items ts,
+      Eval.get_optional lit re_search nstr vstr kw_handler creator p l = (items, Eval.Done) /\
+      target_locs items = Some ts /\
+      MergeAt.merge_at lit cfg (match p with Eval.PPath [] => true | _ => false end) ts l r = Ok out /\
+      (forall q, Forall (fun t => MergeAtProofs.leaves t q) ts -> lookup out q = lookup l q).
+Proof. exact mergeat_step. Qed.
+Print Assumptions C16_mergeat_step_is_C11.
+
+(* ---- non-vacuity: a.yaml = {a: {k: 1}}, b.yaml = {a: {b: 2}}, c.yaml = {a: {c: 3}} ---- *)
+Definition x_cfg : mconfig := mkconfig false [] [] None None None None None None None None None None.
+Definition x_A : node := NMap (x_inf 1 true) [ (x_s 2 "a", NMap (x_inf 3 true) [ (x_s 4 "k", x_i 5 1) ]) ].
+Definition x_B : node := NMap (x_inf 6 true) [ (x_s 2 "a", NMap (x_inf 7 true) [ (x_s 8 "b", x_i 9 2) ]) ].
+Definition x_C : node := NMap (x_inf 10 true) [ (x_s 2 "a", NMap (x_inf 11 true) [ (x_s 12 "c", x_i 13 3) ]) ].
+Fixpoint x_size (n : node) : nat :=
+  match n with
+  | NLeaf _ _ => 1
+  | NMap _ kvs => S (fold_right (fun kv acc => x_size (snd kv) + acc) 0 kvs)
+  | NSeq _ els => S (fold_right (fun x acc => x_size x + acc) 0 els)
+  | NSet _ els => S (List.length els)
+  end.
+Definition x_mid (n : node) : nat := 100 * N.to_nat (node_oid n) + x_size n.
+Definition x_or_null (o : outcome node) : node := match o with Ok d => d | _ => x_null end.
+(* the universe of one run: the three inputs and the two intermediate results; every other identifier stands for A *)
+Definition x_universe (m : node -> node -> outcome node) : list node :=
+  let ab := x_or_null (m x_A x_B) in [x_A; x_B; x_C; ab; x_or_null (m ab x_C)].
+Definition x_mdoc_of (m : node -> node -> outcome node) (i : nat) : node :=
+  match find (fun n => Nat.eqb (x_mid n) i) (x_universe m) with Some n => n | None => x_A end.
+Definition x_total (m : node -> node -> outcome node) : bool :=
+  forallb (fun l => forallb (fun r => match m l r with Ok _ => true | _ => false end) (x_universe m)) (x_universe m).
+Definition x_root := Merge.merge_root x_lit x_cfg.
+Definition x_at := lib_merge_at x_lit x_re x_nstr x_vstr x_kw x_cr x_cfg (x_pp "/a").
+Definition x_srcs := [ex_src "a.yaml" [x_mid x_A]; ex_src "b.yaml" [x_mid x_B]; ex_src "c.yaml" [x_mid x_C]].
+
+Lemma x_in_universe : forall m i, In (x_mdoc_of m i) (x_universe m).
+Proof.
+  intros m i. unfold x_mdoc_of. destruct (find _ (x_universe m)) as [n|] eqn:E.
+  - apply find_some in E. exact (proj1 E).
+  - left. reflexivity.
+Qed.
+Lemma x_total_sound : forall m, x_total m = true -> forall l r, exists x, m (x_mdoc_of m l) (x_mdoc_of m r) = Ok x.
+Proof.
+  intros m H l r. unfold x_total in H. rewrite forallb_forall in H.
+  specialize (H _ (x_in_universe m l)). rewrite forallb_forall in H. specialize (H _ (x_in_universe m r)).
+  destruct (m (x_mdoc_of m l) (x_mdoc_of m r)); try discriminate. eauto.
+Qed.
+
+(* yaml-merge a.yaml b.yaml c.yaml: every hypothesis of C16_merge_end_to_end; one document delivered,
+   {a: {k: 1, b: 2, c: 3}} - the deep merge of the three hashes *)
+Example C16_merge_end_to_end_nonvacuous :
+  (forall l r, exists x, x_root (x_mdoc_of x_root l) (x_mdoc_of x_root r) = Ok x) /\
+  map (x_mdoc_of x_root) [x_mid x_A; x_mid x_B; x_mid x_C] = [x_A; x_B; x_C] /\
+  match fold_nodes x_root x_A [x_B; x_C] with
+  | Ok D =>
+      erase D = DMap [ (PStr "a", DMap [ (PStr "k", DLeaf (PInt 1)); (PStr "b", DLeaf (PInt 2)); (PStr "c", DLeaf (PInt 3)) ]) ] /\
+      cli_merge_main (merge2_of (x_mdoc_of x_root) x_mid x_root) (fun _ => false) (fun d => d) 9 ex_args_merge true x_srcs (ex_src "-" [])
+      = mkrun (Exit 0) [ODump false [x_mid D]] [] /\
+      x_mdoc_of x_root (x_mid D) = D
+  | _ => False
+  end /\
+  fold_coherent (x_mdoc_of x_root) x_mid x_root x_A [x_B; x_C].
+Proof.
+  split; [apply x_total_sound; vm_compute; reflexivity|]. vm_compute. repeat split.
+Qed.
+
+(* yaml-merge --mergeat=/a a.yaml b.yaml c.yaml: the whole right-hand documents are merged INTO the hash at /a:
+   {a: {k: 1, a: {b: 2, c: 3}}} *)
+Example C16_mergeat_end_to_end_nonvacuous :
+  (forall l r, exists x, x_at (x_mdoc_of x_at l) (x_mdoc_of x_at r) = Ok x) /\
+  match fold_nodes x_at x_A [x_B; x_C] with
+  | Ok D =>
+      erase D = DMap [ (PStr "a", DMap [ (PStr "k", DLeaf (PInt 1));
+                                         (PStr "a", DMap [ (PStr "b", DLeaf (PInt 2)); (PStr "c", DLeaf (PInt 3)) ]) ]) ] /\
+      cli_merge_main (merge2_of (x_mdoc_of x_at) x_mid x_at) (fun _ => false) (fun d => d) 9 ex_args_merge true x_srcs (ex_src "-" [])
+      = mkrun (Exit 0) [ODump false [x_mid D]] [] /\
+      x_mdoc_of x_at (x_mid D) = D
+  | _ => False
+  end /\
+  fold_coherent (x_mdoc_of x_at) x_mid x_at x_A [x_B; x_C].
+Proof.
+  split; [apply x_total_sound; vm_compute; reflexivity|]. vm_compute. repeat split.
+Qed.
